@@ -27,7 +27,7 @@ CLAIMS = {
             "None, steps None,+-1,+-2,+-3, for axis lengths 0..4, plus coordinate lists) and must select exactly "
             "what Python's list-of-lists indexing selects, with the same shape and the same IndexError/ValueError "
             "behaviour; (SLC-2) _range_size is proved to be ceil(distance/|step|) symbolically for every step, zero "
-            "step rejected; (SLC-3) the gather offset is row * shape[1] + col (local aliases read through). When _range_size is not written as the catalogued sign split it is decided on a grid against len(range()) instead (weaker, said in the evidence). Arrays built from nested lists have the inferred shape and row-major order, len() counts rows, ragged/empty input raises ValueError."
+            "step rejected; (SLC-3) the gather offset is row * shape[1] + col (local aliases read through). When _range_size is not written as the catalogued sign split it is decided on a grid against len(range()) instead (weaker, said in the evidence). Arrays built from nested lists have the inferred shape and row-major order, len() counts rows, ragged/empty input raises ValueError. Every scalar pair in [-n-2, n+1]^2 and scalar x slice pairs are evaluated through each class's own __getitem__ wrapper (the wrappers are not shared even where _getitem_impl is)."
         ),
         note="Trusted: the abstract evaluator (sa/core/fde.py, classworld.py); Python's own slicing as the specification; the small-model argument in DESIGN.md C13 (steps beyond +-3 are covered by SLC-2/SLC-3 only).",
         technique="static analysis: vocabulary check + finite-domain abstract evaluation of __getitem__ + symbolic ceiling-division identity (ast)",
@@ -79,7 +79,7 @@ CLAIMS = {
             "`is None`, established by the catalogued loop shape (REF-1..5, guard facts and def-use) or, for a differently written "
             "loop, by a uniformity vocabulary over all reachable code (REF-V); neither alone can raise a violation. (REF-6) the "
             "native/fallback partition of the six backends through the class hierarchy equals the property's; (REF-7 = SGR-2..5) "
-            "deduction-mode replies built from the Java wrapper's templates are parsed correctly; REF-E also covers programs with no variable or one variable; (VID-5) every form of add_answer_key's argument (nestings, one-shot iterables) registers every variable. Not decided: that "
+            "deduction-mode replies built from the Java wrapper's templates are parsed correctly; REF-E also covers programs with no variable or one variable; (VID-5) every form of add_answer_key's argument (nestings, one-shot iterables, whole arrays and array views: strided and reversed slices, columns, sub-rectangles, elements, two successive calls) registers every variable. Not decided: that "
             "refute-and-resolve computes the intersection of all models (the idea itself), the external solvers."
         ),
         note="Trusted: the refute-and-resolve idea; the Java wrapper as format definition; the uniformity argument that carries the finite scenarios to all programs. A loop that is neither in the catalogued shape nor inside the REF-V vocabulary makes the check exit 2, not pass.",
@@ -197,7 +197,7 @@ CLAIMS = {
             "post-update bounds by linear entailment: merge needs num_blocks > min_num_blocks and len(i)+len(j) <= max_block_size, "
             "split needs num_blocks < max_num_blocks and both halves >= min_block_size, each of the four move forms needs donor "
             "> min, receiver < max, the connectivity test applied to the donor without exactly the moved cell, and the cell added "
-            "is the cell removed; (SEG-E) abstract evaluation on 9 board/bound configurations x 3 draw scripts: from initial(), "
+            "is the cell removed; (SEG-E) abstract evaluation on 9 board/bound configurations x 3 draw scripts plus given initial_blocks (non-convex, out-of-order, one bound tight, and starts that break the upper count bound or the lower size bound, which initial() must walk into the bounds): from initial(), "
             "all proposed updates are applied breadth-first over the reachable values (state budget): every value is a partition "
             "of the board into orthogonally connected blocks within all bounds, and neither candidates() nor copy_with_update "
             "modifies the value it was applied to; (RNG-1) segmentation.py uses no ambient randomness; (SEG-S) split_block, for every connected block of at most 5 (thorough: 6) cells in a 3x3 board and every ordered pair of distinct seeds, returns two non-empty orthogonally connected parts that partition the block; (SEG-C) the donor-connectivity helper answers, for every connected block inside 3x3 / 2x4 / 1x4 boards, every removed cell and both listing orders, exactly whether the rest is orthogonally connected. Unmeetable bounds: initial() may give up by raising, never by returning a partition outside the bounds."
